@@ -573,7 +573,7 @@ void generate_queue(Rng &r, const GenOpts &g, Plan &p, Mode mode) {
     int allocp = (int) r.below(4);   // 0: never, 1: 5 %, 2: 30 %, 3: always
     if (g.config != "malloc") allocp = 0;
     long uniq = 0;
-    long textmax = mode == M_C18 ? 400 : (heap ? p.knob["heap"] + 3 : 40);
+    long textmax = mode == M_C18 ? 400 : (heap ? p.knob["heap"] + 3 : (r.chance(1, 10) ? 300 : 40));
     bool quotes = mode == M_C18 || r.chance(1, 3);
     for (long i = 0; i < n; i++) {
         int kind = (int) r.below(mode == M_C18 ? 8 : 12);
@@ -619,6 +619,12 @@ void generate_queue(Rng &r, const GenOpts &g, Plan &p, Mode mode) {
                     p.ops.push_back(Op("push", {code, 0, 0}));
                 } else {
                     std::string t = gen_text(r, uniq++, textmax, quotes);
+                    if (textmax >= 300 && r.chance(1, 3)) {
+                        // lengths at the automatic-length limit
+                        size_t want = (size_t) (255 + r.range(-2, 2));
+                        while (t.size() < want) t += (char) ('a' + t.size() % 26);
+                        t.resize(want);
+                    }
                     long lenarg = r.chance(1, 2) ? 0 : (r.chance(1, 2) ? (long) t.size() : r.range(1, (long) t.size() + 3));
                     p.ops.push_back(Op("push", {code, lenarg, fail ? 1 : 0}, t));
                 }
